@@ -218,7 +218,7 @@ def a5(prog, ctx):
                        % (q, sname, "; ".join(src(d[1])[:40] for d in rd)))
     ctx.floor("A5", "cache registration call sites", n, 3)
     # the annotation-db cache registers inline in convert_db: the registration must follow the conversion in the same block
-    cd = prog.func_inlined("src/gtf2db.py", "convert_db")
+    cd = prog.func_inlined("src/gtf2db.py", "convert_db", exclude=("load_json_cache", "dump_json_cache", "convert_fn"))
     loaded = [st_.targets[0].id for st_ in cd.body if isinstance(st_, ast.Assign) and isinstance(st_.targets[0], ast.Name)
               and isinstance(st_.value, ast.Call) and call_name(st_.value) == "load_json_cache"]
     regs = [st_ for st_ in cd.body if isinstance(st_, ast.Assign) and isinstance(st_.targets[0], ast.Subscript)
